@@ -205,6 +205,36 @@ def check(ctx):
     for q, f in scope.items():
         if q not in badf:
             ctx.ok("D-scope", f, "no internal-error construct in %s" % q)
+    first_of_possibly_empty(ctx, base)
+
+
+def first_of_possibly_empty(ctx, fns):
+    """D13: `list(X)[0]`, `X.values()[-1]`, `sorted(X)[0]` .. on a registry or script-dependent collection, without a test that
+    it is non-empty on the way: a script that leaves the collection empty (a framer without frames, ..) gets IndexError
+    instead of a build error"""
+    ctx.rule("D13", "element [k] of a freshly listed collection is taken only under a test that the collection is non-empty")
+    n = 0
+    for q, f in sorted(fns.items()):
+        hits = [x for x in ast.walk(f) if isinstance(x, ast.Subscript) and isinstance(x.ctx, ast.Load) and
+                isinstance(x.slice, ast.Constant) and isinstance(x.slice.value, int) and isinstance(x.value, ast.Call) and
+                ((call_name(x.value) in ("list", "tuple", "sorted") and len(x.value.args) == 1) or
+                 (isinstance(x.value.func, ast.Attribute) and x.value.func.attr in ("values", "keys", "items") and not x.value.args))]
+        if not hits:
+            continue
+        V = FuncView(ctx, f)
+        for x in hits:
+            n += 1
+            inner = x.value.args[0] if x.value.args else x.value.func.value
+            if isinstance(inner, ast.Call) and isinstance(inner.func, ast.Attribute) and inner.func.attr in ("values", "keys", "items"):
+                inner = inner.func.value
+            coll = src(inner)
+            node = next((nd for nd in V.cfg.nodes if any(y is x for y in V.cfg.walk_node(nd))), None)
+            fs = V.symfacts(node) if node is not None else set()
+            guarded = any(coll in f_ and not f_.startswith("not ") for f_ in fs)
+            ctx.check(guarded, "D13", x, "%s in %s" % (src(x)[:60], q.split(":")[1]),
+                      "`%s` may be empty for some script (nothing on the way tests it): IndexError escapes the builder instead of a "
+                      "ParseError/ResolveError naming the offending line" % coll)
+    ctx.ok("D13", "ioflo/base scope", "%d element-of-listing sites" % n)
 
 
 def _is_inst(e, target):
